@@ -84,6 +84,7 @@ class DealMonitor:
     def __init__(self, ctx: Any) -> None:
         self.ctx = ctx
         self.street = None
+        self.board_total = 0        # community cards every board must hold after the streets dealt so far
         self.reset()
 
     def reset(self) -> None:
@@ -142,6 +143,15 @@ class DealMonitor:
         elif name == 'BoardDealing':
             ctx.check(not self.street.card_burning_status or self.burnt == 1, 'dealt-before-burn')
             self.board += len(op.cards)
+            if st.street_return_index is None and st.street_index == self.idx and not self.fallback:
+                # boards are dealt in order: a later board gets cards of this street only once the
+                # earlier ones hold all of theirs (a partial deal continues the same board)
+                base = self.board_total + sum(x.board_dealing_count for x in st.streets[:self.idx])
+                full = base + self.street.board_dealing_count
+                lens = [len(tuple(st.get_board_cards(b))) for b in range(st.board_count)]
+                for b in range(len(lens) - 1):
+                    ctx.check(not (lens[b + 1] > base and lens[b] < full) and lens[b] <= full, 'board-dealt-out-of-order',
+                              lambda: f'street {self.idx}: cards per board {lens} (before the street {base}, prescribed {full})')
         elif name == 'StandingPatOrDiscarding':
             ctx.check(self.street.draw_status, 'draw-not-prescribed')
             own = self.cards_before[op.player_index]
@@ -158,6 +168,13 @@ class DealMonitor:
         k = len(s.hole_dealing_statuses)
         if s.card_burning_status:
             ctx.check(self.burnt == 1, 'no-burn', lambda: f'street {self.idx}')
+        self.board_total += (k if (self.fallback and k and not s.draw_status) else 0)     # fallback extras so far
+        expected_total = self.board_total + sum(x.board_dealing_count for x in st.streets[:self.idx + 1])
+        if st.street_return_index is None and st.street_index == self.idx:
+            for b in range(st.board_count):
+                nb = len(tuple(st.get_board_cards(b)))
+                ctx.check(nb == expected_total, 'cards-on-the-wrong-board',
+                          lambda: f'street {self.idx}: board {b} holds {nb} cards, prescribed {expected_total}')
         if s.draw_status:
             for i in self.live:
                 ctx.check(i in self.discards, 'player-skipped-in-draw')
@@ -374,8 +391,10 @@ JOBS = [
     ('NR/n3/one-by-one', dict(code='NR', n=3, sym_decisions=3, manual='one')),
     ('N2L1D/n3/masks', dict(code='N2L1D', n=3, sym_decisions=2, manual='one')),
     ('F2L3D/n4/exhaustion', dict(code='F2L3D', n=4, sym_decisions=0, manual='auto', mask_budget=4, fixed_mask=3)),
-    ('F2L3D/n4/exhaustion/counts', dict(code='F2L3D', n=4, sym_decisions=0, manual='late-counts', mask_budget=0, fixed_mask=3,
-                                        count_budget=6)),
+    ('F2L3D/n6/exhaustion/counts', dict(code='F2L3D', n=6, sym_decisions=0, manual='late-counts', mask_budget=0, fixed_mask=3,
+                                        count_budget=5)),
+    ('FB/n5/exhaustion/counts', dict(code='FB', n=5, sym_decisions=0, manual='late-counts', mask_budget=0, fixed_mask=3,
+                                     count_budget=5)),
     ('F2L3D/n6/exhaustion', dict(code='F2L3D', n=6, sym_decisions=1, manual='auto', mask_budget=2, fixed_mask=3)),
     ('FB/n3/masks', dict(code='FB', n=3, sym_decisions=1, manual='auto', mask_budget=4)),
     ('F7S/n3/counts', dict(code='F7S', n=3, sym_decisions=2, manual='counts', count_budget=5)),
